@@ -3,7 +3,7 @@ from props.c02 import TRUSTED, ASSUME
 
 def main():
     c = Check("C04")
-    c.prove(gen=["wire", "classify"])
+    c.prove(gen=["wire", "classify", "stmts"])
     c.correspond("rbcfair")
     c.correspond("classify")
     return c.finish(
